@@ -321,7 +321,7 @@ func bCopy(intp *Interpreter) error {
 		if n < 0 {
 			return intp.e(eRangecheck, "copy: invalid count %d", n)
 		}
-		if len(intp.Stack) < int(n)+1 {
+		if Integer(len(intp.Stack)-1) < n {
 			return intp.e(eStackunderflow, "copy: not enough arguments")
 		}
 		intp.Stack = intp.Stack[:len(intp.Stack)-1]
@@ -1108,7 +1108,7 @@ func bPutinterval(intp *Interpreter) error {
 		if !ok {
 			return intp.e(eTypecheck, "putinterval: mismatched argument types")
 		}
-		if int(index)+len(src) > len(dst) {
+		if Integer(len(dst)-len(src)) < index {
 			return intp.e(eRangecheck, "putinterval: index out of range")
 		}
 		copy(dst[index:], src)
@@ -1117,7 +1117,7 @@ func bPutinterval(intp *Interpreter) error {
 		if !ok {
 			return intp.e(eTypecheck, "putinterval: mismatched argument types")
 		}
-		if int(index)+len(src) > len(dst) {
+		if Integer(len(dst)-len(src)) < index {
 			return intp.e(eRangecheck, "putinterval: index out of range")
 		}
 		copy(dst[index:], src)
